@@ -1817,6 +1817,11 @@ impl<'a, E: quiver_core::effects::Effect> Compiler<'a, E> {
 
         // If result type is never (empty union), pattern won't match - skip pattern matching code
         if self.is_never(result_type) {
+            // A condition holding a check that cannot succeed never succeeds: what its other
+            // checks narrowed the value to must not be subtracted for the following branches.
+            if let Some(n) = narrowing.as_mut() {
+                n.unsatisfiable(&value_provenance, value_type, self.program);
+            }
             self.codegen.add_instruction(Instruction::Pop);
             self.codegen.add_instruction(Instruction::Tuple(NIL));
             return Ok(self.program.register_type(Type::nil()));
